@@ -396,6 +396,9 @@ func genTree18(rng *Rng) *tree18 {
 		refs[p.from][p.via] = append(refs[p.from][p.via], rel)
 	}
 	// ---- adversarial references (each with small probability) ----
+	// dedicated scenario: newDir inside the target and a reference that enters it
+	intoNewDir := rng.Chance(7)
+	intoScope := scopeDir
 	newDirChoice := rng.Intn(100)
 	newDir := "/new"
 	switch {
@@ -428,11 +431,17 @@ func genTree18(rng *Rng) *tree18 {
 	default:
 		newDir = "/n/../new2"
 	}
+	if intoNewDir {
+		newDir = targetDir + "/new"
+		if rng.Bool() {
+			intoScope = targetDir // scope argument left empty below
+		}
+	}
 	absNewDir := lexAbs(newDir)
 	if newDir == "" {
 		absNewDir = "/localized-" + filepath.Base(targetDir)
 	}
-	adv := rng.Chance(35)
+	adv := rng.Chance(28)
 	inj := func(p int) bool { return adv && rng.Chance(p) }
 	if inj(12) {
 		// reference to a file that does not exist
@@ -459,15 +468,24 @@ func genTree18(rng *Rng) *tree18 {
 		refs[k]["resources"] = append(refs[k]["resources"], relTo(roots[k].dir, targetDir))
 		t.tag("cycle")
 	}
-	if inj(40) && strings.HasPrefix(absNewDir, targetDir+"/") {
-		// reference INTO the destination: the copy made a moment ago
-		t.Files[targetDir+"/again.yaml"] = cmDoc("again")
-		refs[0]["resources"] = append(refs[0]["resources"], "again.yaml", filepath.Join(relTo(targetDir, absNewDir), relTo(scopeDir, targetDir), "again.yaml"))
-		t.tag("file-into-newdir")
+	if intoNewDir {
+		mirror := filepath.Join(relTo(targetDir, absNewDir), relTo(intoScope, targetDir))
+		if rng.Bool() {
+			// a file reference INTO the destination: the copy made a moment ago
+			t.Files[targetDir+"/again.yaml"] = cmDoc("again")
+			refs[0]["resources"] = append(refs[0]["resources"], "again.yaml", filepath.Join(mirror, "again.yaml"))
+			t.tag("file-into-newdir")
+		} else {
+			// a root reference INTO the destination: the copy of a root localized a moment ago
+			t.Files[targetDir+"/twin/kustomization.yaml"] = "resources:\n- tw.yaml\n"
+			t.Files[targetDir+"/twin/tw.yaml"] = cmDoc("twin")
+			refs[0]["resources"] = append(refs[0]["resources"], "twin", filepath.Join(mirror, "twin"))
+			t.tag("root-into-newdir")
+		}
 	}
 	if inj(10) {
 		refs[0]["bases"] = append(refs[0]["bases"], relTo(targetDir, absNewDir))
-		t.tag("root-into-newdir")
+		t.tag("root-into-missing-newdir")
 	}
 	if inj(8) {
 		refs[0]["resources"] = append(refs[0]["resources"], targetDir+"/sub-abs")
@@ -524,7 +542,11 @@ func genTree18(rng *Rng) *tree18 {
 	}
 	// ---- arguments ----
 	t.Target = targetDir
-	switch x := rng.Intn(100); {
+	argRoll := rng.Intn(100)
+	if intoNewDir {
+		argRoll = 0
+	}
+	switch x := argRoll; {
 	case x < 70:
 	case x < 76:
 		t.Target = targetDir + "/"
@@ -554,7 +576,14 @@ func genTree18(rng *Rng) *tree18 {
 	default:
 		t.Target = targetDir
 	}
-	switch x := rng.Intn(100); {
+	scopeRoll := rng.Intn(100)
+	if intoNewDir {
+		scopeRoll = 0
+		if intoScope == targetDir {
+			scopeRoll = 60
+		}
+	}
+	switch x := scopeRoll; {
 	case x < 55:
 		t.Scope = scopeDir
 	case x < 75:
